@@ -224,6 +224,11 @@ def TExpr.depth : TExpr → Nat
 def TSchema.depth (S : TSchema) : Nat :=
   (S.decls.map fun d => (d.fields.map fun f => f.ty.depth).foldl Nat.max 0).foldl Nat.max 0
 
+def TSchema.maxFields (S : TSchema) : Nat := (S.decls.map (·.fields.length)).foldl Nat.max 0
+
+/-- matcher fuel per declared type that suffices (soundness theorem) -/
+def TSchema.bound (S : TSchema) : Nat := S.decls.length + S.maxFields + 2 * S.depth + 8
+
 /-! ### parser for the textual subset -/
 
 inductive Tok where
